@@ -325,6 +325,93 @@ fn trunc(m: &HashMap<String, String>) {
     let _ = std::fs::remove_dir_all(&scratch);
 }
 
+use bourse_verif_harness::sim::{fnv64, run_sim, SimSpec};
+
+/// Random specification of a simulation. `mix`: 0 = RandomAgents only (exactly modelled in Lean),
+/// 1 = all built-in agent types.
+fn gen_sim_spec(rng: &mut Xoroshiro128StarStar, mix: bool) -> SimSpec {
+    let multi = rng.gen::<f64>() < 0.4;
+    let na = if multi { rng.gen_range(1..4) } else { 1 };
+    let ticks: Vec<u32> = (0..na).map(|_| [1u32, 2, 5, 10][rng.gen_range(0..4)]).collect();
+    let step = [4u64, 16, 100, 1000][rng.gen_range(0..4)];
+    let n_agents = rng.gen_range(1..5);
+    let mut agents = Vec::new();
+    let mut next_trader = 100u32;
+    for _ in 0..n_agents {
+        let asset = rng.gen_range(0..na);
+        let tick = ticks[asset];
+        let kind = if mix { ['R', 'N', 'M'][rng.gen_range(0..3)] } else { 'R' };
+        let f: Vec<String> = match kind {
+            'R' => {
+                let lo = rng.gen_range(5..30u32);
+                let hi = lo + rng.gen_range(1..8u32);
+                let vlo = rng.gen_range(1..5u32);
+                let vhi = vlo + rng.gen_range(1..6u32);
+                let rate = ["0/16", "1/16", "4/16", "8/16", "12/16", "16/16", "24/16"][rng.gen_range(0..7)];
+                vec![rng.gen_range(1..7u32).to_string(), lo.to_string(), hi.to_string(), vlo.to_string(), vhi.to_string(), tick.to_string(), rate.to_string()]
+            }
+            'N' => {
+                let n = rng.gen_range(1..8u32);
+                let start = next_trader;
+                next_trader += n;
+                let pr = ["0/1", "1/8", "1/2", "1/1"];
+                vec![start.to_string(), n.to_string(), tick.to_string(), pr[rng.gen_range(0..4)].into(), pr[rng.gen_range(0..4)].into(),
+                     pr[rng.gen_range(0..4)].into(), rng.gen_range(1..20u32).to_string(), ["0", "1", "3"][rng.gen_range(0..3)].into(),
+                     ["1/2", "1", "10"][rng.gen_range(0..3)].into()]
+            }
+            _ => {
+                let n = rng.gen_range(1..8u32);
+                let start = next_trader;
+                next_trader += n;
+                let pr = ["0/1", "1/8", "1/2", "1/1"];
+                vec![start.to_string(), n.to_string(), tick.to_string(), pr[rng.gen_range(0..4)].into(), rng.gen_range(1..20u32).to_string(),
+                     ["1/2", "1/4", "1"][rng.gen_range(0..3)].into(), ["1", "5", "40"][rng.gen_range(0..3)].into(),
+                     ["1/100", "1/2", "4"][rng.gen_range(0..3)].into(), ["0", "1/2", "1"][rng.gen_range(0..3)].into(),
+                     ["0", "1"][rng.gen_range(0..2)].into(), ["1/2", "1", "10"][rng.gen_range(0..3)].into()]
+            }
+        };
+        agents.push(bourse_verif_harness::sim::AgentSpec { kind, asset, f });
+    }
+    let seed = if rng.gen::<f64>() < 0.12 { [0u64, 1, 1 << 32, u64::MAX][rng.gen_range(0..4)] } else { rng.gen_range(0..1_000_000) };
+    SimSpec { seed, t0: rng.gen_range(0..100), ticks, step, trading: rng.gen::<f64>() < 0.9,
+              steps: rng.gen_range(1..40), multi, agents }
+}
+
+/// sim-gen --seed S --n N --mix 0|1 : run N generated simulations with the real runner.
+/// mix=0: prints H/O/I streams for the Lean model; always prints `D <spec> <digest…>` lines comparing
+/// derived vs hand-written sets, progress bar on/off and a repeated run.
+fn sim_gen(m: &HashMap<String, String>) {
+    let seed: u64 = m.get("seed").and_then(|s| s.parse().ok()).unwrap_or(1);
+    let n: usize = m.get("n").and_then(|s| s.parse().ok()).unwrap_or(10);
+    let mix = m.get("mix").map(|s| s == "1").unwrap_or(false);
+    for i in 0..n {
+        let mut rng = Xoroshiro128StarStar::seed_from_u64(seed.wrapping_mul(0x9E3779B97F4A7C15).wrapping_add(i as u64) ^ 0x51A1);
+        let spec = gen_sim_spec(&mut rng, mix);
+        let a = run_sim(&spec, false, false);
+        let b = run_sim(&spec, true, false);
+        let c = run_sim(&spec, false, true);
+        let d = run_sim(&spec, false, false);
+        let mut other = spec.clone();
+        other.seed = other.seed.wrapping_add(1);
+        let e = run_sim(&other, false, false);
+        if !mix {
+            println!("H sim{}-{}-{} {} sim {}", if mix { "mix" } else { "rand" }, seed, i, if mix { "mix" } else { "rand" }, spec.line());
+            println!("I r=u sh=ok perm=- rngck=1 n=0");
+            println!("O run");
+            println!("I {}", a);
+        }
+        println!("D {:016x} progress={:016x} hand={:016x} again={:016x} otherseed={:016x} panic={} {}", fnv64(&a), fnv64(&b), fnv64(&c), fnv64(&d), fnv64(&e),
+                 if a.starts_with("r=PANIC") { 1 } else { 0 }, spec.line());
+    }
+}
+
+fn sim_run(args: &[String]) {
+    let toks: Vec<&str> = args.iter().map(|s| s.as_str()).collect();
+    let spec = SimSpec::parse(&toks).expect("bad sim spec");
+    let a = run_sim(&spec, false, false);
+    println!("D {:016x} {}", fnv64(&a), spec.line());
+}
+
 enum Hist {
     Book(BookHeader, Vec<Op>),
     Env(EnvHeader, Vec<EOp>),
@@ -387,6 +474,8 @@ fn main() {
         "replay" => replay(&args[2]),
         "env-gen" => env_gen(&m),
         "trunc" => trunc(&m),
+        "sim-gen" => sim_gen(&m),
+        "sim-run" => sim_run(&args[2..]),
         "market-gen" => market_gen(&m),
         other => {
             eprintln!("unknown subcommand {}", other);
